@@ -85,6 +85,16 @@ def _script(rng):
 
 
 def gen_one(rng, i, tier):
+    if i % 50 == 7:
+        # a class of more than a thousand scores sampled at a small proportion (a quick look at 3 % of a large data set):
+        # the requested number of DISTINCT scores, whatever shortcut the implementation takes for sparse draws
+        npos = rng.choice([1000, 1200, 1500])
+        pos = [k / 8.0 for k in rng.sample(range(-8000, 8000), npos)]
+        neg = [k / 8.0 + 0.0625 for k in rng.sample(range(-8000, 8000), rng.randint(30, 60))]
+        sc, ec = rng.choice(gen.CFGS)
+        runs = [{"method": "proportion", "strat": rng.choice([None, "by_label"]), "smooth": False, "ratio": r_,
+                 "script": {"real": rng.randrange(2**31 - 1)}} for r_ in (0.03, 0.05, 0.02)]
+        return {"pos": pos, "neg": neg, "ep": rng.choice([0, 40]), "en": 0, "sc": sc, "ec": ec, "runs": runs, "bigprop": True}
     large = rng.random() < 0.25
     npos, nneg = _size(rng, large), _size(rng, large)
     if large and rng.random() < 0.2:
@@ -369,6 +379,21 @@ def build(inp) -> Case:
         pre.append(Issue("PROPFAIL", "source-unchanged", "the source object changed during sampling", "source"))
     if pa.tobytes() != pa0.tobytes() or na.tobytes() != na0.tobytes():
         pre.append(Issue("PROPFAIL", "source-unchanged", "the caller's arrays changed during sampling", "caller"))
+    # the declared easy counts are public attributes: after they are reassigned on an object that has already been sampled
+    # (so every derived ratio has been read), the next sample is drawn from the source AS IT IS NOW
+    if inp["pos"] and inp["neg"] and not inp.get("bigprop") and any(r["method"] == "replacement" for r in inp["runs"]):
+        s.nb_easy_neg = int(s.nb_easy_neg) + 7
+        s.nb_easy_pos = int(s.nb_easy_pos) + 3
+        run_h = {"method": "replacement", "strat": None, "smooth": False, "ratio": None, "script": {"seed": 4242, "mode": ""}}
+        with ScriptedRNG(seed=4242) as rr:
+            r = common.call(s.bootstrap_sample, BootstrapConfig(sampling_method="replacement"))
+        what_h = _describe(dict(inp, ep=inp["ep"] + 3, en=inp["en"] + 7), run_h) + " after nb_easy_* were reassigned on the sampled object"
+        keys, o = observed(r, run_h, what_h)
+        src_h = dict(src, ep=inp["ep"] + 3, en=inp["en"] + 7)
+        lines.append(line("sample", **src_h, method="replacement", strat=0, smooth=0, ratio="none", prods="[]", hastrace=1,
+                          **rng_script.encode_script(rr.trace), **rng_script.encode_requests(rr.trace, "q"), **keys))
+        judges.append(("scripted", run_h, what_h, rr.trace, o, keys if r[0] == "ok" else {"ores": r[1], "msg": r[2]}))
+        s.nb_easy_neg, s.nb_easy_pos = inp["en"], inp["ep"]
     inp["_evals"] = len(inp["runs"])
 
     def judge(outs):
